@@ -172,17 +172,27 @@ fn apply_edit(k: u64, p: usize, v: u8, l: &[u8]) -> Vec<u8> {
 }
 
 /// the binary edits in the order of Box.v `bin_edits_from`
+fn bin_stride(n: usize) -> usize {
+	if n <= 1000 {
+		1
+	} else {
+		(n + 999) / 1000
+	}
+}
 fn bin_edits(bin: &[u8], hdr: usize) -> Vec<(u64, usize, u8)> {
+	let stride = bin_stride(bin.len());
 	let mut v = vec![];
 	for (pos, b) in bin.iter().enumerate() {
 		if pos < hdr {
 			for j in 0..255u32 {
 				v.push((0, pos, ((*b as u32 + 1 + j) % 256) as u8));
 			}
-		} else {
+		} else if pos % stride == 0 {
 			v.push((0, pos, b ^ 1));
 			v.push((0, pos, b ^ 128));
 			v.push((0, pos, b ^ 85));
+		} else {
+			continue;
 		}
 		v.push((1, pos, 0));
 		v.push((2, pos, 65));
@@ -382,7 +392,7 @@ fn prepare(scen: &Scen, keys: &[KeyEnt], case: &Value) -> Result<Prep, String> {
 			);
 			let is_r = !enc || rcpts.contains(&k);
 			let want = if is_r { (0, 0, 0) } else { (1, 1, 4) };
-			if (r1.class, v2, r3.class) != want {
+			if (r1.class, v2, r3.class) != want && fails.iter().filter(|f| f.starts_with("key w")).count() < 3 {
 				fails.push(format!(
 					"key w{}/{} ({}): deser {} slate_from {} decode {} — expected {:?}",
 					w, DIDX[j], if is_r { "recipient" } else { "not a recipient" }, r1.class, v2, r3.class, want
@@ -474,10 +484,10 @@ fn run_edits(p: &Prep, keys: &[KeyEnt], base: &[u8], es: &[E]) -> Vec<R3> {
 }
 
 fn armor_stride(n: usize) -> usize {
-	if n <= 1600 {
+	if n <= 1200 {
 		1
 	} else {
-		(n + 1599) / 1600
+		(n + 1199) / 1200
 	}
 }
 
@@ -543,7 +553,7 @@ fn summarize(p: &Prep, bes: &[E], brs: &[R3], aes: &[E], ars: &[R3], budget: usi
 	}
 	let sample_json: Vec<Value> = sample.iter().map(|e| json!([e.0, e.1, e.2, e.3])).collect();
 	(
-		json!({"bin_n": bes.len(), "bin_exc": bin_exc, "bin_hist": bin_hist, "armor_n": aes.len(),
+		json!({"bin_n": bes.len(), "bin_stride": bin_stride(p.bin.len()), "bin_exc": bin_exc, "bin_hist": bin_hist, "armor_n": aes.len(),
 			"armor_stride": armor_stride(n), "armor_hist": hist, "armor_edits": sample_json}),
 		fails,
 	)
@@ -765,7 +775,8 @@ fn main() {
 		.map(|i| {
 			std::sync::Mutex::new(match &preps[i] {
 				Ok(p) => {
-					let b = (budget * 1000 / p.armor.len().max(1)).max(8).min(budget);
+					let f = 1000.0 / p.armor.len().max(1) as f64;
+					let b = ((budget as f64 * f * f) as usize).max(3).min(budget);
 					Some(summarize(p, &lists[i].0, &brs[i], &lists[i].1, &ars[i], b))
 				}
 				Err(_) => None,
